@@ -26,7 +26,7 @@ using lt::Tracker;
 using lt::Viol;
 
 // ------------------------------------------------------------------ case-global state reachable from callbacks
-struct CmdRec { int made, fin; };
+struct CmdRec { int made, fin; uintptr_t id; };
 
 struct Obs {
   Viol viol;
@@ -318,7 +318,7 @@ static int cmd_handler(void *arg, void *ev) {
 }
 struct CommandKind : Kind {
   std::vector<int> seen;
-  CommandKind() : Kind("command", mpt_command_traits()) { W->cmds.push_back(CmdRec{0, 0}); }
+  CommandKind() : Kind("command", mpt_command_traits()) { W->cmds.push_back(CmdRec{0, 0, 0}); }
   uint32_t draw(Ctx &c) override { return c.chance(40) ? 0 : 1; }  // 1: a fresh command (made unique in make())
   // every constructed command is a singular resource: its value is its serial number
   uint32_t last = 0;
@@ -326,8 +326,9 @@ struct CommandKind : Kind {
     command *cm = (command *)p;
     memset(p, 0, sizeof(command));
     if (!v) { last = 0; return; }
-    W->cmds.push_back(CmdRec{1, 0});
+    W->cmds.push_back(CmdRec{1, 0, 0});
     last = (uint32_t)W->cmds.size() - 1;
+    W->cmds[last].id = last;
     cm->id = last;
     cm->cmd = (int (*)(void *, void *))cmd_handler;
     cm->arg = &W->cmds[last];
@@ -734,13 +735,14 @@ struct Sim {
     size_t len = c.near({0, n * esz, 64, 192}, 16 * esz);
     if (c.chance(24)) len += 1;  // not a multiple of the element size: rounded up by the library
     CBuf *before = x.b();
-    bool was_shared = before && (flags_of(before) & BufferShared);
+    uint32_t flags_before = before ? flags_of(before) : 0;
+    bool was_shared = flags_before & BufferShared;
     bool compatible = x.b() && x.k && nk == x.k;  // same or alias traits: content is kept
     c.logf("reserve h%d: %zu bytes for %s%s (now %s x %zu)", hi, len, nk ? nk->name : "raw", which == 1 ? " (alias traits)" : "", x.k ? x.k->name : x.b() ? "raw" : "none", n);
     arm(compatible ? k : 0);
     buffer *ret = mpt_array_reserve(x.a, len, tr);
     disarm();
-    if (compatible) note_detach(x, before, was_shared);
+    if (compatible) note_detach(x, before, was_shared || (flags_before & BufferImmutable));  // mpt_array_reserve copies (not moves) out of an immutable buffer
     c.logf("  -> %s", ret ? "ok" : "refused");
     obs.viol.raise(c, "reserve");
     if (ret) {
@@ -749,7 +751,8 @@ struct Sim {
       if (compatible) {
         // same traits: everything the request covers is kept; alias traits (same finaliser, other object) are a type change
         // for which the documentation ("change buffer content type", "clear incompatible data") promises no content
-        size_t keep = (tr == x.tr) ? std::min(n, len / esz) : 0;
+        // likewise a shared no-copy buffer is replaced by an empty one (its elements stay with the other handles)
+        size_t keep = (tr == x.tr && !(was_shared && (flags_before & BufferNoCopy))) ? std::min(n, len / esz) : 0;
         x.tr = tr;
         if (strict) expect_prefix(x, "reserve", keep);
       } else {
@@ -828,6 +831,8 @@ struct Sim {
     Kind *k = x.k;
     size_t n = x.vals.size(), S = k->size;
     int which = (int)c.pick(6);
+    CBuf *before = x.b();
+    bool was_shared = flags_of(before) & BufferShared;
     switch (which) {
       case 0: {  // element size mismatch
         c.logf("refusal probe h%d: mpt_array_set with a length that is no multiple of the element size", (int)(&x - h));
@@ -873,11 +878,72 @@ struct Sim {
       }
     }
     c.label("refusal-probe");
+    note_detach(x, before, was_shared);  // mpt_array_insert makes its private copy before it looks at the length
     sync("refusal probe");
+  }
+
+  // the command registry functions work in place on an array the caller owns
+  void op_command() {
+    Handle &x = pick_handle();
+    if (x.b() && (x.k != primary || (flags_of(x.b()) & (BufferShared | BufferImmutable)))) return;
+    int hi = (int)(&x - h);
+    unique_array<command> *ua = reinterpret_cast<unique_array<command> *>(x.a.get());
+    std::vector<size_t> used_slots;
+    for (size_t i = 0; i < x.vals.size(); i++) if (x.vals[i]) used_slots.push_back(i);
+    int which = (int)c.weighted({6, 3, 2, 1});
+    if (which == 3) {
+      if (!x.b()) return;
+      c.logf("mpt_command_clear(h%d)", hi);
+      mpt_command_clear(ua);
+      if (!used_slots.empty()) nontrivial = true;
+      x.vals.clear();
+      c.label("ok:command-clear");
+      sync("command clear");
+      return;
+    }
+    if (which && used_slots.empty()) which = 0;
+    if (which == 0) {
+      obs.cmds.push_back(CmdRec{1, 0, 0});
+      uint32_t s = (uint32_t)obs.cmds.size() - 1;
+      obs.cmds[s].id = s;
+      c.logf("mpt_command_set(h%d, new id %u)", hi, s);
+      int r = mpt_command_set(ua, s, (int (*)(void *, void *))cmd_handler, &obs.cmds[s]);
+      c.logf("  -> %d", r);
+      if (r < 0) { obs.cmds[s].fin = 1; sync("command set"); return; }  // never registered: nothing to finalise
+      size_t idx = 0;
+      while (idx < x.vals.size() && x.vals[idx]) idx++;
+      if (idx < x.vals.size()) { x.vals[idx] = s; c.label("command:reuse-empty-slot"); }
+      else x.vals.push_back(s);
+      if (!x.k) { x.k = primary; x.tr = primary->traits; }
+      c.label("ok:command-set");
+    } else {
+      size_t idx = used_slots[c.pick(used_slots.size())];
+      uintptr_t id = obs.cmds[x.vals[idx]].id;
+      if (which == 1) {
+        obs.cmds.push_back(CmdRec{1, 0, id});
+        uint32_t s = (uint32_t)obs.cmds.size() - 1;
+        c.logf("mpt_command_set(h%d, id %lu of slot %zu, new handler context #%u)", hi, (unsigned long)id, idx, s);
+        int r = mpt_command_set(ua, id, (int (*)(void *, void *))cmd_handler, &obs.cmds[s]);
+        c.logf("  -> %d", r);
+        VP_CHECK(c, r == 0, "command-set-result", "replacing the handler of id %lu returned %d", (unsigned long)id, r);
+        x.vals[idx] = s;
+        c.label("ok:command-replace");
+      } else {
+        c.logf("mpt_command_set(h%d, id %lu of slot %zu, no handler) = delete", hi, (unsigned long)id, idx);
+        int r = mpt_command_set(ua, id, 0, 0);
+        c.logf("  -> %d", r);
+        VP_CHECK(c, r == 2, "command-set-result", "deleting id %lu returned %d", (unsigned long)id, r);
+        x.vals[idx] = 0;
+        c.label("ok:command-delete");
+      }
+      nontrivial = true;
+    }
+    sync("command set");
   }
 
   void step() {
     for (auto &x : h) x.relax = false;
+    if (libkind && !strcmp(libkind->name, "command") && c.chance(64)) { op_command(); return; }
     switch (c.weighted({7, 24, 12, 14, 6, 8, 3, 9, 10, 4, 3, 3})) {
       case 0: op_create(); break;
       case 1: op_set(); break;
@@ -925,10 +991,643 @@ static void run_c(Ctx &c, int kind) {
   c.count("ops-succeeded", s.ops_ok);
 }
 
+// ================================================================== C++ containers
+// counting element with the layout of a 16 byte token element
+struct CT {
+  uint64_t token;
+  uint32_t val, inv;
+  CT() { if (W) W->trk.init(this, 0, 16); }
+  explicit CT(uint32_t v) { if (W) W->trk.make(this, v, 16); }
+  CT(const CT &o) { if (W) W->trk.init(this, &o, 16); }
+  CT &operator=(const CT &o) { if (W) W->trk.assign(this, &o); return *this; }
+  ~CT() { if (W) W->trk.fini(this, 16); }
+};
+
+template <class A>
+struct CxxSim {
+  Ctx &c;
+  Obs obs;
+  A *h;  // heap: left alone after an oracle failure
+  std::vector<uint32_t> vals[3];
+  bool relax[3] = {false, false, false};
+  bool nontrivial = false;
+  const char *flavour;
+
+  CxxSim(Ctx &ctx, const char *f) : c(ctx), flavour(f) { W = &obs; h = new A[3]; }
+  ~CxxSim() {
+    if (std::uncaught_exceptions()) { W = 0; return; }
+    delete[] h;
+    W = 0;
+  }
+  CBuf *buf(int i) { return (CBuf *)h[i]._ref.instance(); }
+  bool real(CBuf *b) { return b && b->size; }  // the static default_data placeholder has size 0
+  void relax_sharers(int i) { for (int j = 0; j < 3; j++) if (j != i && real(buf(i)) && buf(j) == buf(i)) relax[j] = true; }
+
+  void sync(const char *op) {
+    obs.viol.raise(c, op);
+    Tracker &t = obs.trk;
+    t.tally_begin();
+    CBuf *seen[3];
+    int nseen = 0;
+    for (int i = 0; i < 3; i++) {
+      CBuf *b = buf(i);
+      VP_CHECK(c, b, "handle-lost-buffer", "after %s: handle %d holds no buffer object at all", op, i);
+      VP_CHECK(c, b->used <= b->size, "used-beyond-size", "after %s: handle %d: used %zu > size %zu", op, i, b->used, b->size);
+      VP_CHECK(c, b->used % 16 == 0, "partial-element", "after %s: handle %d: used %zu is not a multiple of the element size", op, i, b->used);
+      bool first = true;
+      for (int j = 0; j < nseen; j++) if (seen[j] == b) first = false;
+      std::vector<uint32_t> got;
+      for (size_t e = 0; e < b->used / 16; e++) {
+        uint32_t v = 0;
+        std::string why;
+        bool ok = t.read(slot(b, e, 16), 16, v, why);
+        VP_CHECK(c, ok, "dead-element-in-buffer", "after %s: handle %d: slot %zu of %zu %s", op, i, e, b->used / 16, why.c_str());
+        got.push_back(v);
+        if (first && !t.tally(slot(b, e, 16))) c.fail("element-bytes-duplicated", "after %s: handle %d: slot %zu holds an element that also occupies another slot", op, i, e);
+      }
+      if (first) seen[nseen++] = b;
+      if (!relax[i]) {
+        if (got != vals[i]) {
+          std::string g, w;
+          for (uint32_t v : got) g += std::to_string(v) + " ";
+          for (uint32_t v : vals[i]) w += std::to_string(v) + " ";
+          c.fail("content-mismatch", "after %s: handle %d reads [ %s] but a value-semantics vector holds [ %s]", op, i, g.c_str(), w.c_str());
+        }
+      } else {
+        vals[i] = got;
+      }
+      relax[i] = false;
+      if (real(b)) {
+        int users = 0;
+        for (int j = 0; j < 3; j++) if (buf(j) == b) users++;
+        bool shared = flags_of(b) & BufferShared;
+        VP_CHECK(c, shared == (users > 1), "buffer-refcount", "after %s: handle %d: buffer is named by %d handle(s) but reports %s", op, i, users, shared ? "shared" : "not shared");
+      }
+      if (c.verbose()) {
+        std::string g;
+        for (uint32_t v : got) g += std::to_string(v) + " ";
+        c.logf("    a%d: [ %s] used %zu size %zu flags %x", i, g.c_str(), b->used, b->size, flags_of(b));
+      }
+    }
+    std::string first;
+    size_t lost = t.unseen(first);
+    VP_CHECK(c, !lost, "element-not-finalised", "after %s: %zu live element(s) are in no buffer any more and were never finalised, e.g. %s", op, lost, first.c_str());
+  }
+
+  long draw_pos(size_t n) {
+    switch (c.weighted({3, 4, 3, 3, 3})) {
+      case 0: return 0;
+      case 1: return n ? (long)c.range(0, n - 1) : 0;
+      case 2: return (long)n;
+      case 3: return (long)n + (long)c.range(1, 3);
+      default: return -(long)c.range(1, n + 1);
+    }
+  }
+  // typed_array<T>::insert(pos, value) / unique_array<T>::insert(pos) + assignment
+  bool do_insert(typed_array<CT> &a, long pos, uint32_t v) { CT tmp(v); return a.insert(pos, tmp); }
+  bool do_insert(unique_array<CT> &a, long pos, uint32_t v) {
+    CT *p = a.insert(pos);
+    if (!p) return false;
+    CT tmp(v);
+    *p = tmp;
+    return true;
+  }
+  void op_insert() {
+    int i = (int)c.pick(3);
+    size_t n = vals[i].size();
+    long pos = draw_pos(n);
+    uint32_t v = (uint32_t)c.range(1, 9);
+    relax_sharers(i);
+    c.logf("a%d.insert(%ld, %u)  (length %zu)", i, pos, v, n);
+    bool ok = do_insert(h[i], pos, v);
+    c.logf("  -> %d", ok);
+    obs.viol.raise(c, "insert");
+    long at = pos < 0 ? pos + (long)n : pos;
+    if (ok) {
+      VP_CHECK(c, at >= 0, "accepted-invalid", "insert accepted position %ld on %zu elements", pos, n);
+      if (vals[i].size() < (size_t)at) vals[i].resize(at, 0);
+      vals[i].insert(vals[i].begin() + at, v);
+      c.label((size_t)at < n ? "cxx:insert-inside" : (size_t)at > n ? "cxx:insert-gap" : "cxx:insert-end");
+    }
+    sync("insert");
+  }
+  void op_set() {
+    int i = (int)c.pick(3);
+    size_t n = vals[i].size();
+    long pos = draw_pos(n);
+    uint32_t v = (uint32_t)c.range(1, 9);
+    relax_sharers(i);
+    CBuf *before = buf(i);
+    bool was_shared = real(before) && (flags_of(before) & BufferShared);
+    c.logf("a%d.set(%ld, %u)  (length %zu)", i, pos, v, n);
+    bool ok;
+    { CT tmp(v); ok = h[i].set(pos, tmp); }
+    c.logf("  -> %d", ok);
+    obs.viol.raise(c, "set");
+    long at = pos < 0 ? pos + (long)n : pos;
+    if (ok) {
+      VP_CHECK(c, at >= 0 && (size_t)at < n, "accepted-invalid", "set accepted position %ld on %zu elements", pos, n);
+      vals[i][at] = v;
+      if (was_shared && buf(i) != before) { nontrivial = true; c.label("cxx:shared-copy"); }
+      c.label("cxx:set");
+    }
+    sync("set");
+  }
+  void op_resize() {
+    int i = (int)c.pick(3);
+    size_t n = vals[i].size();
+    long len = (long)c.near({0, 1, n, n + 1}, n + 5);
+    if (c.chance(16)) len = -(long)c.range(1, 3);
+    relax_sharers(i);
+    c.logf("a%d.resize(%ld)  (length %zu)", i, len, n);
+    bool ok = h[i].resize(len);
+    c.logf("  -> %d", ok);
+    obs.viol.raise(c, "resize");
+    if (ok && len >= 0) {
+      if ((size_t)len < n) { nontrivial = true; c.label("cxx:resize-shrink"); }
+      if ((size_t)len > n) c.label("cxx:resize-grow");
+      vals[i].resize(len, 0);
+    }
+    sync("resize");
+  }
+  void op_reserve() {
+    int i = (int)c.pick(3);
+    size_t n = vals[i].size();
+    long len = (long)c.near({0, n, 4, 12}, 20);
+    if (c.chance(24)) len = -(long)c.range(1, n + 1);
+    relax_sharers(i);
+    c.logf("a%d.reserve(%ld)  (length %zu)", i, len, n);
+    bool ok = h[i].reserve(len);
+    c.logf("  -> %d", ok);
+    c.label("cxx:reserve");
+    sync("reserve");
+  }
+  void op_detach() {
+    int i = (int)c.pick(3);
+    relax_sharers(i);
+    CBuf *before = buf(i);
+    bool was_shared = real(before) && (flags_of(before) & BufferShared);
+    c.logf("a%d.detach()", i);
+    bool ok = h[i].detach();
+    c.logf("  -> %d", ok);
+    if (ok && was_shared && buf(i) != before) { nontrivial = true; c.label("cxx:shared-copy"); }
+    sync("detach");
+  }
+  void op_assign() {
+    int i = (int)c.pick(3), j = (int)c.pick(3);
+    c.logf("a%d = a%d", i, j);
+    h[i] = h[j];
+    vals[i] = vals[j];
+    c.label("cxx:assign");
+    sync("assign");
+  }
+  void op_release() {
+    int i = (int)c.pick(3);
+    c.logf("a%d = empty array", i);
+    h[i] = A();
+    vals[i].clear();
+    sync("release");
+  }
+  // buffer member functions on a private buffer
+  bool private_buffer(int i) {
+    relax_sharers(i);
+    if (!h[i].detach()) return false;
+    CBuf *b = buf(i);
+    return real(b) && !(flags_of(b) & (BufferShared | BufferImmutable));
+  }
+  void op_trim_skip() {
+    int i = (int)c.pick(3);
+    if (!private_buffer(i)) { sync("detach"); return; }
+    sync("detach");
+    size_t n = vals[i].size();
+    size_t k = c.near({0, 1, n, n + 1}, n + 1);
+    bool skip = c.flip(), odd = c.chance(16);
+    size_t bytes = k * 16 + (odd ? 8 : 0);
+    content<CT> *d = h[i]._ref.instance();
+    c.logf("a%d: buffer::%s(%zu bytes)  (length %zu)", i, skip ? "skip" : "trim", bytes, n);
+    bool ok = skip ? d->skip(bytes) : d->trim(bytes);
+    c.logf("  -> %d", ok);
+    obs.viol.raise(c, skip ? "skip" : "trim");
+    if (ok) {
+      VP_CHECK(c, !odd && k <= n, "accepted-invalid", "buffer::%s accepted %zu bytes on %zu elements", skip ? "skip" : "trim", bytes, n);
+      if (skip) vals[i].erase(vals[i].begin(), vals[i].begin() + k);
+      else vals[i].resize(n - k);
+      if (k) { nontrivial = true; c.label(skip ? "cxx:skip" : "cxx:trim"); }
+    }
+    sync(skip ? "skip" : "trim");
+  }
+  void op_copy_move() {
+    int i = (int)c.pick(3), j = (int)c.pick(3);
+    if (i == j || !private_buffer(i)) { sync("detach"); return; }
+    sync("detach");
+    bool move = c.chance(96);
+    if (move && !private_buffer(j)) { sync("detach"); return; }
+    sync("detach");
+    content<CT> *d = h[i]._ref.instance(), *s = h[j]._ref.instance();
+    if (d == s) return;
+    size_t n = vals[i].size(), m = vals[j].size();
+    c.logf("a%d: buffer::%s(buffer of a%d)  (length %zu <- %zu)", i, move ? "move" : "copy", j, n, m);
+    bool ok = move ? d->move(*s) : d->copy(*s);
+    c.logf("  -> %d", ok);
+    obs.viol.raise(c, move ? "move" : "copy");
+    if (ok) {
+      vals[i] = vals[j];
+      if (move) vals[j].clear();
+      if (n) nontrivial = true;
+      c.label(move ? "cxx:buffer-move" : m < n ? "cxx:buffer-copy-shrinks" : "cxx:buffer-copy");
+    }
+    sync(move ? "move" : "copy");
+  }
+  void op_get() {
+    int i = (int)c.pick(3);
+    size_t n = vals[i].size();
+    long pos = draw_pos(n);
+    CT *p = h[i].get(pos);
+    long at = pos < 0 ? pos + (long)n : pos;
+    bool valid = at >= 0 && (size_t)at < n;
+    VP_CHECK(c, (p != 0) == valid || relax[i], "get-result", "a%d.get(%ld) on %zu elements returned %p", i, pos, n, (void *)p);
+  }
+  void run() {
+    c.logf("C++ containers: %s<counting T>", flavour);
+    c.label(flavour);
+    sync("start");
+    while (c.more()) {
+      for (auto &r : relax) r = false;
+      switch (c.weighted({16, 10, 12, 5, 5, 8, 3, 10, 8, 2})) {
+        case 0: op_insert(); break;
+        case 1: op_set(); break;
+        case 2: op_resize(); break;
+        case 3: op_reserve(); break;
+        case 4: op_detach(); break;
+        case 5: op_assign(); break;
+        case 6: op_release(); break;
+        case 7: op_trim_skip(); break;
+        case 8: op_copy_move(); break;
+        default: op_get(); break;
+      }
+    }
+    for (int i = 0; i < 3; i++) { h[i] = A(); vals[i].clear(); }
+    sync("final release");
+    VP_CHECK(c, obs.trk.live.empty(), "element-not-finalised", "%zu element(s) alive after the last release", obs.trk.live.size());
+    if (nontrivial) c.nontrivial();
+  }
+};
+
+// ---------------- reference_array<T> / item_array<T> with counted objects of several sizes
+struct RState { long refs; int destroyed; int id; };
+static std::map<const void *, RState> *g_robj;
+template <size_t N>
+struct RObj {
+  uint8_t bytes[N];
+  void unref() {
+    auto it = g_robj->find(this);
+    if (it == g_robj->end()) { if (W) W->viol.rec("fini-non-element", "unref() called on %p, which is not an object (reference slot misread)", (void *)this); return; }
+    if (it->second.destroyed || !it->second.refs) { if (W) W->viol.rec("unref-after-destroy", "unref() on object #%d after its last reference was dropped", it->second.id); return; }
+    if (!--it->second.refs) it->second.destroyed++;
+  }
+  uintptr_t addref() {
+    auto it = g_robj->find(this);
+    if (it == g_robj->end() || it->second.destroyed) { if (W) W->viol.rec("addref-after-destroy", "addref() on %p which is not a live object", (void *)this); return 0; }
+    return ++it->second.refs;
+  }
+};
+
+template <size_t N>
+static void run_refarray(Ctx &c) {
+  typedef RObj<N> T;
+  Obs obs;
+  W = &obs;
+  std::map<const void *, RState> table;
+  g_robj = &table;
+  struct Guard { ~Guard() { W = 0; g_robj = 0; } } guard;
+  enum { R = 3 };
+  std::unique_ptr<T> obj[R + 1];
+  bool held[R + 1] = {false};
+  for (int r = 1; r <= R; r++) { obj[r].reset(new T()); table[obj[r].get()] = RState{1, 0, r}; held[r] = true; }
+  reference_array<T> *h = new reference_array<T>[2];
+  std::vector<int> vals[2];
+  bool relax[2] = {false, false};
+  char name[40];
+  snprintf(name, sizeof name, "reference_array<sizeof %zu>", N);
+  c.logf("C++ containers: %s", name);
+  c.label(N == 4 ? "reference_array<4>" : N == 8 ? "reference_array<8>" : "reference_array<24>");
+  bool nontrivial = false;
+  unsigned ok_inserts = 0;
+  auto index = [&](const void *p) { for (int r = 1; r <= R; r++) if (p == obj[r].get()) return r; return p ? -1 : 0; };
+  auto sync = [&](const char *op) {
+    obs.viol.raise(c, op);
+    long cnt[R + 1] = {0};
+    CBuf *seen[2];
+    int nseen = 0;
+    for (int i = 0; i < 2; i++) {
+      CBuf *b = (CBuf *)h[i]._ref.instance();
+      VP_CHECK(c, b && b->used <= b->size, "used-beyond-size", "after %s: handle %d: used beyond size", op, i);
+      VP_CHECK(c, b->used % sizeof(void *) == 0, "partial-element", "after %s: handle %d: used %zu is not a multiple of the reference size", op, i, b->used);
+      bool first = true;
+      for (int j = 0; j < nseen; j++) if (seen[j] == b) first = false;
+      std::vector<int> got;
+      for (size_t e = 0; e < b->used / sizeof(void *); e++) {
+        int r = index(*(void **)slot(b, e, sizeof(void *)));
+        VP_CHECK(c, r >= 0, "dead-element-in-buffer", "after %s: handle %d: slot %zu holds an unknown pointer", op, i, e);
+        VP_CHECK(c, !r || !table[obj[r].get()].destroyed, "dead-element-in-buffer", "after %s: handle %d: slot %zu references object #%d which was already destroyed", op, i, e, r);
+        got.push_back(r);
+        if (first) cnt[r]++;
+      }
+      if (first) seen[nseen++] = b;
+      if (!relax[i]) {
+        if (got != vals[i]) {
+          std::string g, w;
+          for (int v : got) g += std::to_string(v) + " ";
+          for (int v : vals[i]) w += std::to_string(v) + " ";
+          c.fail("content-mismatch", "after %s: handle %d reads [ %s] but a value-semantics vector holds [ %s]", op, i, g.c_str(), w.c_str());
+        }
+      } else vals[i] = got;
+      relax[i] = false;
+      if (c.verbose()) {
+        std::string g;
+        for (int v : got) g += std::to_string(v) + " ";
+        c.logf("    r%d: [ %s] used %zu size %zu", i, g.c_str(), b->used, b->size);
+      }
+    }
+    for (int r = 1; r <= R; r++) {
+      RState &s = table[obj[r].get()];
+      long expect = cnt[r] + (held[r] ? 1 : 0);
+      c.logf("    object #%d: %ld slot(s) + %d harness reference, counter %ld, destroyed %d", r, cnt[r], held[r] ? 1 : 0, s.refs, s.destroyed);
+      VP_CHECK(c, s.refs == expect, s.refs > expect ? "resource-not-released" : "resource-released-early", "after %s: object #%d has reference count %ld, but %ld slot(s)%s reference it", op, r, s.refs, cnt[r], held[r] ? " and the harness" : "");
+    }
+  };
+  auto same = [&](int i) { int j = 1 - i; CBuf *a = (CBuf *)h[i]._ref.instance(), *b = (CBuf *)h[j]._ref.instance(); if (a == b && a->size) relax[j] = true; };
+  sync("start");
+  while (c.more()) {
+    relax[0] = relax[1] = false;
+    int i = (int)c.pick(2);
+    size_t n = vals[i].size();
+    switch (c.weighted({12, 6, 6, 4, 3, 3, 3})) {
+      case 0: {  // insert
+        long pos = (long)c.range(0, n + 2) - 1;
+        int r = (int)c.range(0, R);
+        if (r && !held[r]) r = 0;
+        same(i);
+        c.logf("r%d.insert(%ld, object #%d)  (length %zu)", i, pos, r, n);
+        if (r) obj[r]->addref();  // the reference is handed over on success
+        bool ok = h[i].insert(pos, r ? obj[r].get() : 0);
+        c.logf("  -> %d", ok);
+        if (!ok && r) obj[r]->unref();
+        long at = pos < 0 ? pos + (long)n : pos;
+        if (ok) {
+          VP_CHECK(c, at >= 0, "accepted-invalid", "insert accepted position %ld", pos);
+          if (vals[i].size() < (size_t)at) vals[i].resize(at, 0);
+          vals[i].insert(vals[i].begin() + at, r);
+          ++ok_inserts;
+          c.label("refarray:insert");
+        } else c.label("refarray:insert-refused");
+        sync("insert");
+        break;
+      }
+      case 1: {  // set
+        long pos = (long)c.range(0, n + 1) - 1;
+        int r = (int)c.range(0, R);
+        if (r && !held[r]) r = 0;
+        same(i);
+        c.logf("r%d.set(%ld, object #%d)  (length %zu)", i, pos, r, n);
+        if (r) obj[r]->addref();
+        bool ok = h[i].set(pos, r ? obj[r].get() : 0);
+        c.logf("  -> %d", ok);
+        if (!ok && r) obj[r]->unref();
+        long at = pos < 0 ? pos + (long)n : pos;
+        if (ok) {
+          VP_CHECK(c, at >= 0 && (size_t)at < n, "accepted-invalid", "set accepted position %ld on %zu", pos, n);
+          if (vals[i][at]) nontrivial = true;
+          vals[i][at] = r;
+          c.label("refarray:set");
+        }
+        sync("set");
+        break;
+      }
+      case 2: {  // resize
+        long len = (long)c.range(0, n + 3);
+        same(i);
+        c.logf("r%d.resize(%ld)  (length %zu)", i, len, n);
+        bool ok = h[i].resize(len);
+        c.logf("  -> %d", ok);
+        if (ok) {
+          if ((size_t)len < n) { nontrivial = true; c.label("refarray:shrink"); }
+          vals[i].resize(len, 0);
+        }
+        sync("resize");
+        break;
+      }
+      case 3: {  // clear(ref)
+        int r = (int)c.range(0, R);
+        same(i);
+        c.logf("r%d.clear(object #%d)", i, r);
+        long k = h[i].clear(r ? obj[r].get() : 0);
+        long want = 0;
+        for (auto &v : vals[i]) if (v && (!r || v == r)) { v = 0; ++want; }
+        VP_CHECK(c, k == want || relax[1 - i], "clear-result", "clear returned %ld, %ld references matched", k, want);
+        if (want) nontrivial = true;
+        sync("clear");
+        break;
+      }
+      case 4: {  // share
+        int j = 1 - i;
+        c.logf("r%d = r%d", i, j);
+        h[i] = h[j];
+        vals[i] = vals[j];
+        sync("assign");
+        break;
+      }
+      case 5: {  // release
+        c.logf("r%d = empty array", i);
+        if (n) nontrivial = true;
+        h[i] = reference_array<T>();
+        vals[i].clear();
+        c.label("refarray:release");
+        sync("release");
+        break;
+      }
+      default: {  // harness drops a reference of its own
+        int r = (int)c.range(1, R);
+        if (!held[r]) break;
+        c.logf("harness drops its reference on object #%d", r);
+        obj[r]->unref();
+        held[r] = false;
+        sync("harness reference dropped");
+        break;
+      }
+    }
+  }
+  for (int i = 0; i < 2; i++) { h[i] = reference_array<T>(); vals[i].clear(); }
+  for (int r = 1; r <= R; r++) if (held[r]) { obj[r]->unref(); held[r] = false; }
+  sync("final release");
+  for (int r = 1; r <= R; r++) VP_CHECK(c, table[obj[r].get()].destroyed == 1, "resource-not-released", "object #%d destroyed %d time(s) after everything was released", r, table[obj[r].get()].destroyed);
+  delete[] h;
+  c.count("refarray:inserts-ok", ok_inserts);
+  if (nontrivial) c.nontrivial();
+}
+
+static void run_itemarray(Ctx &c) {
+  typedef RObj<8> T;
+  Obs obs;
+  W = &obs;
+  std::map<const void *, RState> table;
+  g_robj = &table;
+  struct Guard { ~Guard() { W = 0; g_robj = 0; } } guard;
+  enum { R = 3 };
+  std::unique_ptr<T> obj[R + 1];
+  for (int r = 1; r <= R; r++) { obj[r].reset(new T()); table[obj[r].get()] = RState{1, 0, r}; }
+  item_array<T> *h = new item_array<T>[2];
+  struct V { int r; int name; bool operator==(const V &o) const { return r == o.r && name == o.name; } };
+  std::vector<V> vals[2];
+  bool relax[2] = {false, false};
+  c.logf("C++ containers: item_array<counted object>");
+  c.label("item_array");
+  bool nontrivial = false;
+  auto sync = [&](const char *op) {
+    obs.viol.raise(c, op);
+    long cnt[R + 1] = {0};
+    CBuf *seen[2];
+    int nseen = 0;
+    for (int i = 0; i < 2; i++) {
+      CBuf *b = (CBuf *)h[i]._ref.instance();
+      size_t S = sizeof(item<T>);
+      VP_CHECK(c, b && b->used <= b->size && b->used % S == 0, "partial-element", "after %s: handle %d: used %zu size %zu", op, i, b ? b->used : 0, b ? b->size : 0);
+      bool first = true;
+      for (int j = 0; j < nseen; j++) if (seen[j] == b) first = false;
+      std::vector<V> got;
+      for (size_t e = 0; e < b->used / S; e++) {
+        item<T> *it = (item<T> *)slot(b, e, S);
+        int r = 0;
+        for (int k = 1; k <= R; k++) if (it->instance() == obj[k].get()) r = k;
+        VP_CHECK(c, r || !it->instance(), "dead-element-in-buffer", "after %s: handle %d: item %zu holds an unknown pointer", op, i, e);
+        VP_CHECK(c, !r || !table[obj[r].get()].destroyed, "dead-element-in-buffer", "after %s: handle %d: item %zu references object #%d which was already destroyed", op, i, e, r);
+        uint32_t nm = name_index(static_cast<identifier *>(it));
+        VP_CHECK(c, nm <= NNames, "dead-element-in-buffer", "after %s: handle %d: item %zu has %s", op, i, e, nm == UINT32_MAX - 1 ? "an identifier that was already finalised" : "an unexpected name");
+        got.push_back(V{r, (int)nm});
+        if (first) cnt[r]++;
+      }
+      if (first) seen[nseen++] = b;
+      if (!relax[i]) {
+        bool eq = got.size() == vals[i].size();
+        for (size_t k = 0; eq && k < got.size(); k++) eq = got[k] == vals[i][k];
+        if (!eq) {
+          std::string g, w;
+          for (auto &v : got) g += std::to_string(v.r) + ":" + std::to_string(v.name) + " ";
+          for (auto &v : vals[i]) w += std::to_string(v.r) + ":" + std::to_string(v.name) + " ";
+          c.fail("content-mismatch", "after %s: handle %d reads [ %s] but a value-semantics vector holds [ %s] (object:name)", op, i, g.c_str(), w.c_str());
+        }
+      } else vals[i] = got;
+      relax[i] = false;
+      if (c.verbose()) {
+        std::string g;
+        for (auto &v : got) g += std::to_string(v.r) + ":" + std::to_string(v.name) + " ";
+        c.logf("    i%d: [ %s] used %zu size %zu", i, g.c_str(), b->used, b->size);
+      }
+    }
+    for (int r = 1; r <= R; r++) {
+      RState &s = table[obj[r].get()];
+      long expect = cnt[r] + 1;
+      VP_CHECK(c, s.refs == expect, s.refs > expect ? "resource-not-released" : "resource-released-early", "after %s: object #%d has reference count %ld, but %ld item(s) and the harness reference it", op, r, s.refs, cnt[r]);
+    }
+  };
+  auto same = [&](int i) { int j = 1 - i; CBuf *a = (CBuf *)h[i]._ref.instance(), *b = (CBuf *)h[j]._ref.instance(); if (a == b && a->size) relax[j] = true; };
+  sync("start");
+  while (c.more()) {
+    relax[0] = relax[1] = false;
+    int i = (int)c.pick(2);
+    size_t n = vals[i].size();
+    switch (c.weighted({12, 5, 5, 4, 3, 3})) {
+      case 0: {  // append
+        int r = (int)c.range(0, R), nm = (int)c.range(0, NNames);
+        same(i);
+        c.logf("i%d.append(object #%d, \"%s\")  (length %zu)", i, r, kNames[nm], n);
+        if (r) obj[r]->addref();
+        item<T> *it = h[i].append(r ? obj[r].get() : 0, nm ? kNames[nm] : 0);
+        c.logf("  -> %s", it ? "ok" : "refused");
+        if (!it && r) obj[r]->unref();
+        if (it) { vals[i].push_back(V{r, nm}); c.label("itemarray:append"); }
+        sync("append");
+        break;
+      }
+      case 1: {  // resize
+        long len = (long)c.range(0, n + 2);
+        same(i);
+        c.logf("i%d.resize(%ld)  (length %zu)", i, len, n);
+        bool ok = h[i].resize(len);
+        c.logf("  -> %d", ok);
+        if (ok) {
+          if ((size_t)len < n) { nontrivial = true; c.label("itemarray:shrink"); }
+          vals[i].resize(len, V{0, 0});
+        }
+        sync("resize");
+        break;
+      }
+      case 2: {  // drop the instance of one item, then compact
+        same(i);
+        if (n) {
+          size_t k = c.range(0, n - 1);
+          CBuf *b = (CBuf *)h[i]._ref.instance();
+          if (!(flags_of(b) & BufferShared)) {
+            c.logf("i%d: item %zu releases its object", i, k);
+            ((item<T> *)slot(b, k, sizeof(item<T>)))->set_instance(0);
+            vals[i][k].r = 0;
+          }
+        }
+        CBuf *b = (CBuf *)h[i]._ref.instance();
+        if (b->size && (flags_of(b) & BufferShared)) break;
+        c.logf("i%d.compact()  (length %zu)", i, n);
+        bool did = h[i].compact();
+        c.logf("  -> %d", did);
+        std::vector<V> keep;
+        bool hole = false;
+        for (auto &v : vals[i]) { if (v.r) keep.push_back(v); else hole = true; }
+        if (did) { VP_CHECK(c, hole, "compact-result", "compact reported a change without an empty item"); vals[i] = keep; nontrivial = true; c.label("itemarray:compact"); }
+        sync("compact");
+        break;
+      }
+      case 3: {
+        int j = 1 - i;
+        c.logf("i%d = i%d", i, j);
+        h[i] = h[j];
+        vals[i] = vals[j];
+        sync("assign");
+        break;
+      }
+      case 4: {
+        c.logf("i%d = empty array", i);
+        if (n) nontrivial = true;
+        h[i] = item_array<T>();
+        vals[i].clear();
+        sync("release");
+        break;
+      }
+      default: {
+        same(i);
+        c.logf("i%d.detach()", i);
+        h[i].detach();
+        sync("detach");
+        break;
+      }
+    }
+  }
+  for (int i = 0; i < 2; i++) { h[i] = item_array<T>(); vals[i].clear(); }
+  sync("final release");
+  delete[] h;
+  if (nontrivial) c.nontrivial();
+}
+
 static void run(Ctx &c) {
   uint8_t sel = c.u8();
-  static const uint8_t map[16] = {0, 0, 0, 0, 1, 1, 1, 2, 2, 3, 3, 4, 4, 5, 5, 6};
-  run_c(c, map[sel % 16]);
+  // 0..6: C API with the element kind (tok16 tok24 array metaref ident cfgitem command); 7..: C++ containers
+  static const uint8_t map[32] = {0, 0, 0, 0, 0, 1, 1, 1, 2, 2, 2, 3, 3, 4, 4, 5, 5, 6, 6, 7, 7, 7, 7, 8, 8, 9, 9, 10, 10, 11, 11, 0};
+  switch (int k = map[sel % 32]) {
+    case 7: { CxxSim<typed_array<CT>> s(c, "typed_array"); s.run(); break; }
+    case 8: { CxxSim<unique_array<CT>> s(c, "unique_array"); s.run(); break; }
+    case 9: run_refarray<8>(c); break;
+    case 10: c.flip() ? run_refarray<4>(c) : run_refarray<24>(c); break;
+    case 11: run_itemarray(c); break;
+    default: run_c(c, k); break;
+  }
 }
 
 static Target t = {
